@@ -270,6 +270,14 @@ def w_real(cfg, tier):
         ls = [eng.integer(f'l{i}', 1 if i == 0 else 0, 3) for i in range(wmax)]     # 1=X 2=Z 3=Y, 0 = absent
         for a_, b_ in zip(qs, qs[1:]):
             eng.assume_base((a_ < b_).t)
+        if len(parts) > 4 and parts[4] == 'xtrans':
+            # X-type errors only, one representative per translation class of the torus: the lowest-index qubit of
+            # the error is the first qubit of one of the two orientations (the lattice is translation invariant)
+            axes = [code.qubit_axis(c) for c in code.qubit_coordinates]
+            reps = [axes.index(a_) for a_ in sorted(set(axes))]
+            for l_ in ls:
+                eng.assume_base((l_ == 1).t)
+            eng.assume_base(z3.Or([qs[0].t == r_ for r_ in reps]))
 
         def fn():
             e = np.zeros(2 * n, dtype=np.uint8)
@@ -456,7 +464,8 @@ def configs(tier):
     if tier != 'quick':
         real += ['real unionfind Toric2DCode(4,4) w=1', 'real unionfind Toric2DCode(5,5) w=2', 'real sweepmatch Toric3DCode(3,4,3) w=1',
                  'real sweepmatch Toric3DCode(4,4,4) w=1', 'real rotatedsweepmatch RotatedPlanar3DCode(4,4,3) w=1',
-                 'real rotatedsweepmatch RotatedPlanar3DCode(5,5,3) w=1', 'real matching Toric2DCode(5,5) w=2']
+                 'real rotatedsweepmatch RotatedPlanar3DCode(5,5,3) w=1', 'real matching Toric2DCode(5,5) w=2',
+                 'real unionfind Toric2DCode(7,7) w=3 xtrans', 'real matching Toric2DCode(7,7) w=3 xtrans']
     return [f'optimal {c}' for c in opt] + [f'correctable {c}' for c in cor] + [f'second {c}' for c in sec] + real
 
 
